@@ -880,3 +880,23 @@ func init() {
 		},
 	})
 }
+
+func init() {
+	register(&PropDef{ID: "C16", Rule: "projects of 1-4 processes with 1-11 replicas whose command, working directory, log location, description and probe command / host / path / port are templated on PC_REPLICA_NUM and on global and per-process variables; the real loader loads the same files 2-4 times per run while the simulator decides every map iteration order (random, sorted, reversed, rotated); all loads must be identical and every replica must carry its own rendering and the defaults; non-trivial = at least 2 loads succeeded; distinct = distinct scenario",
+		Gen: func(seed uint64, idx int, tier string) *Scenario {
+			sc, r := baseScenario("C16", seed)
+			genC16(r, sc, tier)
+			return sc
+		},
+		Check: checkC16,
+		NonTrivial: func(sc *Scenario, res *RunResult, t *Truth) bool {
+			n := 0
+			for i := range t.Events {
+				if t.Events[i].Kind == "load.snap" && t.Events[i].B == "" {
+					n++
+				}
+			}
+			return n >= 2
+		},
+	})
+}
